@@ -74,11 +74,15 @@ theorem ci_TombstoneNodeForTopic_shape : ci_TombstoneNodeForTopic = [
 
 theorem ci_nsqlookupdPOST_shape : ci_nsqlookupdPOST = [
   "assign endpoint := fmt.Sprintf(\"http://%s/%s?%s\", addr, uri, qs)",
-  "assign err := c.client.POSTV1(endpoint, nil, nil)"] := by decide
+  "assign err := c.client.POSTV1(endpoint, nil, nil)",
+  "if len(errs) > 0",
+  "return return ErrList(errs)"] := by decide
 
 theorem ci_producersPOST_shape : ci_producersPOST = [
   "assign endpoint := fmt.Sprintf(\"http://%s/%s?%s\", p.HTTPAddress(), uri, qs)",
-  "assign err := c.client.POSTV1(endpoint, nil, nil)"] := by decide
+  "assign err := c.client.POSTV1(endpoint, nil, nil)",
+  "if len(errs) > 0",
+  "return return ErrList(errs)"] := by decide
 
 theorem ci_GetTopicProducers_shape : ci_GetTopicProducers = [
   "if len(lookupdHTTPAddrs) != 0",
